@@ -60,7 +60,7 @@ type c01Cfg struct {
 	custom     bool
 	disableUDP bool
 	burst      bool
-	authDelay  time.Duration
+	authDelay  int
 	src        string
 }
 
@@ -214,7 +214,7 @@ func TestVerif_C01(t *testing.T) {
 	n := 0
 	if kit.Scenarios("authgate", &scns) {
 		for i, s := range scns {
-			c01Run(t, tr, c01Cfg{custom: i%2 == 0, burst: i%3 == 2, disableUDP: i%7 == 6, authDelay: time.Duration(i%3/2*50) * time.Millisecond, src: "tlc"}, s)
+			c01Run(t, tr, c01Cfg{custom: i%2 == 0, burst: i%3 == 2, disableUDP: i%7 == 6, authDelay: i % 3 / 2 * 3000, src: "tlc"}, s)
 			n++
 		}
 	}
@@ -226,7 +226,7 @@ func TestVerif_C01(t *testing.T) {
 		for k := 0; k < 4+r.Intn(8); k++ {
 			ops = append(ops, c01Op{Conn: 1 + r.Intn(nc), Kind: kinds[r.Intn(len(kinds))]})
 		}
-		c01Run(t, tr, c01Cfg{custom: r.Intn(2) == 0, burst: r.Intn(2) == 0, disableUDP: r.Intn(8) == 0, authDelay: time.Duration(r.Intn(2)*50) * time.Millisecond, src: "rand"}, ops)
+		c01Run(t, tr, c01Cfg{custom: r.Intn(2) == 0, burst: r.Intn(2) == 0, disableUDP: r.Intn(8) == 0, authDelay: r.Intn(2) * 3000, src: "rand"}, ops)
 	}
 	t.Logf("scenarios tlc=%d events=%d", n, tr.Count())
 }
